@@ -24,10 +24,14 @@ CONSTANTS MaxRestarts,   \* Fastly: a request may be restarted at most 3 times
           MaxReq,        \* requests per simulator history
           Urls,          \* request URLs = cache keys (vcl_hash keeps the default)
           Statuses,      \* status the stub backend answers with: 200 cacheable, 500 not
+          DefinedChoices,\* sets of lifecycle subroutines the program defines (an absent one takes its default action)
           JailChoices,   \* may a request put the client into the penalty box ({FALSE} or BOOLEAN)
           KCover         \* how many trailing labels are part of the VIEW (k-switch cover)
 
 Subs == {"recv", "hash", "hit", "miss", "pass", "fetch", "error", "deliver", "log"}
+AllDefined == {Subs}
+SomeAbsent == {Subs, Subs \ {"hit", "miss", "pass"}, {"recv", "fetch", "log"}, Subs \ {"recv", "hash", "log"},
+               {"hit", "miss", "pass", "error", "deliver"}}
 
 (* What a subroutine body can do.  "x_stmt" is the statement form, "x_ret" *)
 (* the return(x) form; "none" falls off the end.  fetch/hit carry the      *)
@@ -125,7 +129,7 @@ Init ==
   /\ req = 1 /\ url \in Urls /\ status \in Statuses
   /\ scope = "recv" /\ viaPass = FALSE /\ restarts = 0 /\ branch = "none" /\ didLookupHit = FALSE /\ attempt = "none"
   /\ cache = [u \in Urls |-> "none"] /\ count = 0 /\ jailed = FALSE /\ jail \in JailChoices /\ ttl0 = FALSE /\ uncache = FALSE /\ young = FALSE
-  /\ pc = "run" /\ lastK = <<>> /\ defined = Subs
+  /\ pc = "run" /\ lastK = <<>> /\ defined \in DefinedChoices
   /\ cur = [NewCur(url, status, cache) EXCEPT !.jail = jail] /\ hist = <<>>
 
 PushK(l, x) == IF KCover = 0 THEN <<>> ELSE IF Len(l) < KCover THEN Append(l, x) ELSE Append(Tail(l), x)
@@ -213,7 +217,7 @@ CurDone == [url |-> cur.url, status |-> cur.status, prog |-> cur.prog, flows |->
             restarts |-> restarts,
             outcome |-> (IF pc = "done" THEN "ok" ELSE "error"), branch |-> branch, cached |-> didLookupHit,
             storedAfter |-> (cache[cur.url] = "fresh"),
-            finalBranch |-> FinalBranch(cur.flows, Len(cur.flows))]
+            finalBranch |-> attempt]
 
 NextRequest ==
   /\ pc \in {"done", "err"} /\ req < MaxReq
@@ -236,10 +240,10 @@ Bounded == restarts <= MaxRestarts
 Count(seq, x) == Cardinality({i \in 1..Len(seq) : seq[i] = x})
 
 \* every request that does not end in a reported error runs vcl_log last and exactly once
-LogLastOnce == pc = "done" => (Len(cur.flows) > 0 /\ cur.flows[Len(cur.flows)] = "log" /\ Count(cur.flows, "log") = 1)
+LogLastOnce == (pc = "done" /\ "log" \in defined) => (Len(cur.flows) > 0 /\ cur.flows[Len(cur.flows)] = "log" /\ Count(cur.flows, "log") = 1)
 
 \* re-entries of recv = restart count
-RestartsCounted == Count(cur.flows, "recv") + (IF pc = "run" /\ scope = "recv" THEN 1 ELSE 0) = restarts + 1
+RestartsCounted == "recv" \in defined => Count(cur.flows, "recv") + (IF pc = "run" /\ scope = "recv" THEN 1 ELSE 0) = restarts + 1
 
 \* each consecutive pair of flows is an edge the requirement table allows for the behaviour chosen
 EdgeOK(i) ==
@@ -251,26 +255,26 @@ EdgeOK(i) ==
       [] r = "STALE"     -> n = "deliver"
       [] r = "END"       -> FALSE
       [] OTHER           -> n = r
-PathOK == \A i \in 1..(Len(cur.flows) - 1) : EdgeOK(i)
+PathOK == defined = Subs => \A i \in 1..(Len(cur.flows) - 1) : EdgeOK(i)
 
 \* the rate counter persists: the n-th request of a history sees n
-CounterPersists == (Len(cur.flows) > 0) => cur.seen = req
+CounterPersists == (Len(cur.flows) > 0 /\ "recv" \in defined) => cur.seen = req
 
 \* the penalty box persists: a request sees the client jailed iff an earlier request of the history jailed it
-JailPersists == (Len(cur.flows) > 0) => (cur.sawJail = \E i \in 1..Len(hist) : hist[i].jail)
+JailPersists == (Len(cur.flows) > 0 /\ "recv" \in defined) => (cur.sawJail = \E i \in 1..Len(hist) : hist[i].jail)
 
 \* never a hit on the first request to a fresh simulator
 FirstRequestMisses == (req = 1 /\ restarts = 0) => branch # "HIT"
 
 \* the hit branch is taken exactly when an unexpired object is stored (checked at the step after hash)
 HitIffStored ==
-  \A i \in 1..(Len(cur.flows) - 1) :
+  defined = Subs => \A i \in 1..(Len(cur.flows) - 1) :
      cur.flows[i] = "hash" =>
         cur.flows[i+1] = (IF cur.prog[i].vp THEN "pass" ELSE IF cur.prog[i].stored THEN "hit" ELSE "miss")
 
 \* the report says which branch was taken: X-Cache (branch) and `cached` agree with the final attempt
 ReportTruthful ==
-  pc = "done" => (/\ attempt = FinalBranch(cur.flows, Len(cur.flows))
+  (pc = "done" /\ defined = Subs) => (/\ attempt = FinalBranch(cur.flows, Len(cur.flows))
                   /\ attempt # "none" => (branch = attempt /\ didLookupHit = (attempt = "HIT")))
 
 Terminates == <>(pc \in {"done", "err"})
@@ -280,32 +284,37 @@ Terminates == <>(pc \in {"done", "err"})
 (* the default continuation (every remaining subroutine falls off its end).*)
 (***************************************************************************)
 RECURSIVE Rest(_, _, _, _, _)
-\* returns [flows, cache, branch, cached]
+\* returns [flows, cache, branch, cached, attempt]
+Log(acc, s) == IF s \in defined THEN [acc EXCEPT !.flows = Append(@, s)] ELSE acc
 Rest(s, vp, c, acc, br) ==
   IF s = "hash" THEN
        LET n == IF vp THEN "pass" ELSE IF c[url] = "fresh" THEN "hit" ELSE "miss" IN
-       Rest(n, vp, c, [acc EXCEPT !.flows = Append(@, "hash"), !.branch = (IF n = "hit" THEN "HIT" ELSE "MISS"),
-                                  !.cached = (n = "hit")], br)
-  ELSE LET nx == MSucc(s, "none")
-           a1 == [acc EXCEPT !.flows = Append(@, s)]
+       Rest(n, vp, c, [Log(acc, "hash") EXCEPT !.branch = (IF n = "hit" THEN "HIT" ELSE "MISS"),
+                                              !.attempt = (IF n = "hit" THEN "HIT" ELSE "MISS"),
+                                              !.cached = (n = "hit")], br)
+  ELSE LET nx == IF s = "recv" /\ s \notin defined THEN "HASHPASS" ELSE MSucc(s, "none")
+           a1 == Log(acc, s)
            c1 == IF s = "fetch" THEN StoreAfterFetch(c, url, status, FALSE, FALSE) ELSE c IN
        IF nx = "END" THEN [a1 EXCEPT !.cache = c1]
        ELSE IF nx = "LOOKUP" THEN Rest("hash", FALSE, c1, a1, br)
        ELSE IF nx = "HASHPASS" THEN Rest("hash", TRUE, c1, a1, br)
        ELSE Rest(nx, vp, c1, a1, br)
 
+FirstRecvPending == pc = "run" /\ scope = "recv" /\ restarts = 0
 Completed ==
   IF pc = "run" THEN
-     LET r == Rest(scope, viaPass, cache, [flows |-> cur.flows, cache |-> cache, branch |-> branch, cached |-> didLookupHit], branch) IN
+     LET r == Rest(scope, viaPass, cache, [flows |-> cur.flows, cache |-> cache, branch |-> branch, cached |-> didLookupHit,
+                                           attempt |-> attempt], branch) IN
      [url |-> cur.url, status |-> cur.status, prog |-> cur.prog, flows |-> r.flows,
-      storedBefore |-> cur.storedBefore, seen |-> (IF Len(cur.flows) = 0 THEN count + 1 ELSE cur.seen),
-      sawJail |-> (IF Len(cur.flows) = 0 THEN jailed ELSE cur.sawJail), jail |-> cur.jail,
+      storedBefore |-> cur.storedBefore,
+      seen |-> (IF FirstRecvPending /\ "recv" \in defined THEN count + 1 ELSE cur.seen),
+      sawJail |-> (IF FirstRecvPending /\ "recv" \in defined THEN jailed ELSE cur.sawJail), jail |-> cur.jail,
       restarts |-> restarts, outcome |-> "ok",
       branch |-> r.branch, cached |-> r.cached, storedAfter |-> (r.cache[cur.url] = "fresh"),
-      finalBranch |-> FinalBranch(r.flows, Len(r.flows))]
+      finalBranch |-> r.attempt]
   ELSE CurDone
 
-Emit == PrintT(<<"BEHAVIOUR", ToJson([reqs |-> Append(hist, Completed)])>>)
+Emit == PrintT(<<"BEHAVIOUR", ToJson([defined |-> defined, reqs |-> Append(hist, Completed)])>>)
 
 \* model checking: one behaviour per view-state (the k-switch cover); simulation: one per finished history
 EmitInv == Emit
